@@ -355,8 +355,8 @@ def obligations(tier: str):
             k_, m_ = (K, M) if st not in small else ((3, 4) if T else (2, 3))
             if st == "tournament" and not T:
                 k_, m_ = 2, 2
-            if form == "repeats" and st in ("mutation", "crossover") and not T:
-                k_, m_ = 2, 3  # the repeat pattern multiplies the per-individual mutation draws
+            if form == "repeats" and st in ("mutation", "crossover"):
+                k_, m_ = (3, 3) if T else (2, 3)  # the repeat pattern multiplies the per-individual mutation draws
             add("step", f"step_{st}_{form}", step=st, form=form, K=k_, M=m_, fitness="sym" if st in ("elitism",) else "const")
     add("step", "step_randomize_parallel_two_generations", step="randomize_parallel_fixed", form="list", K=3, M=3, twice=True, timeout=300)
     add("step", "step_feedback_parallel_two_generations", step="feedback_parallel", form="list", K=2, M=2, twice=True, timeout=300)
